@@ -8,7 +8,7 @@ from functools import partial
 from typing import TYPE_CHECKING
 
 # Third Party Imports
-from numpy import array
+from numpy import array, finfo
 from numpy import max as np_max
 from numpy import ones_like, spacing, zeros
 from scipy.integrate import solve_ivp
@@ -32,6 +32,16 @@ if TYPE_CHECKING:
     from ..physics.time.stardate import ScenarioTime
     from .integration_events import ScheduledEventType
     from .integration_events.station_keeping import StationKeeper
+
+
+def _restartIncrement(stop_time: float) -> float:
+    """Return the time increment used to restart the integration after an event stopped it.
+
+    The increment must be larger than the zero plateau of the event functions (see :func:`.fpe_equals`), otherwise
+    the event that just fired is zero again at the restart and fires a second time. ``spacing()`` alone is smaller
+    than that during the first seconds of a scenario (and denormal at zero).
+    """
+    return max(spacing(stop_time), 10 * finfo(float).resolution)
 
 
 class EarthCollisionError(Exception):
@@ -200,7 +210,7 @@ class Celestial(Dynamics, metaclass=ABCMeta):
             )
 
             # Retrieve final time, this should auto-exit the loop if fully-integrated
-            initial_time = solution.t[-1] + spacing(solution.t[-1])
+            initial_time = solution.t[-1] + _restartIncrement(solution.t[-1])
 
         # Return final state from the solver
         return (
@@ -315,7 +325,7 @@ class Celestial(Dynamics, metaclass=ABCMeta):
             # [NOTE]: Need to increment time a tiny bit, so events don't re-trigger.
             # This also protects events that occur on a timestep. The event is applied
             # at the end of the previous timestep, rather than the beginning of current
-            current_time += spacing(current_time)
+            current_time += _restartIncrement(current_time)
 
             # Save states to output variable, checks for case where event occurs before times[1]
             final_states[..., num_times : num_times + n_t] = states
